@@ -526,9 +526,10 @@ where
             .collect();
         let graph_number = &dfs_pre_order;
 
+        // Only vertices reachable from the root have a DFS number; all others are ignored.
         let mut ancestor: FxHashMap<usize, Option<usize>> = FxHashMap::default();
         let mut label: FxHashMap<usize, usize> = FxHashMap::default();
-        for &vertex in self.vertices.keys() {
+        for &vertex in &dfs_pre_order {
             ancestor.insert(vertex, None);
             label.insert(vertex, dfs_number[&vertex]);
         }
@@ -539,6 +540,9 @@ where
             let mut min_semi = usize::MAX;
 
             for &pred in &self.predecessors[&vertex] {
+                if !dfs_number.contains_key(&pred) {
+                    continue; // predecessor is unreachable from the root
+                }
                 if ancestor[&pred].is_some() {
                     compress(&mut ancestor, &mut label, pred);
                 }
